@@ -35,6 +35,10 @@ TCall == /\ Ev.k = "call" /\ ~IsNopCall
          /\ IF Ev.x.op = "send" THEN CallSend(P, Ev.x.v) /\ UNCHANGED drv
             ELSE IF Ev.x.op = "poll" THEN CallPoll(P, Ev.x.s) /\ UNCHANGED drv
             ELSE IF Ev.x.op = "cancel_all" THEN CallCancel(P) /\ UNCHANGED drv
+            ELSE IF Ev.x.op = "reserve" THEN CallReserve(P) /\ UNCHANGED drv
+            ELSE IF Ev.x.op = "fill" THEN CallFill(P, Ev.x.i + 1, Ev.x.v) /\ UNCHANGED drv
+            ELSE IF Ev.x.op = "send_reserved" THEN CallSendReserved(P, Ev.x.i + 1) /\ UNCHANGED drv
+            ELSE IF Ev.x.op = "cancel_reserved" THEN CallCancelReserved(P, Ev.x.i + 1) /\ UNCHANGED drv
             ELSE IF Ev.x.op = "close" THEN CallClose(P) /\ UNCHANGED drv
             ELSE IF Ev.x.op = "drop_stream" THEN CallDrop(P, Ev.x.s) /\ UNCHANGED drv
             ELSE IF Ev.x.op = "drive"
@@ -63,6 +67,14 @@ TRetOther ==
        THEN cpc[P] = "cret" /\ (Ev.x.ok <=> cres[P] = "ok") /\ ChanRet(P) /\ UNCHANGED drv
        ELSE IF Ev.fn = "cancel_all"
        THEN cpc[P] = "cret" /\ ChanRet(P) /\ UNCHANGED drv
+       ELSE IF Ev.fn = "reserve"
+       THEN cpc[P] = "cret" /\ (Ev.x.ok <=> cres[P] = "reserved") /\ ChanRet(P) /\ UNCHANGED drv
+       ELSE IF Ev.fn = "fill"
+       THEN cpc[P] = "cret" /\ cres[P] = "filled" /\ ChanRet(P) /\ UNCHANGED drv
+       ELSE IF Ev.fn = "send_reserved"
+       THEN cpc[P] = "cret" /\ (Ev.x.ok <=> cres[P] = "ok") /\ ChanRet(P) /\ UNCHANGED drv
+       ELSE IF Ev.fn = "cancel_reserved"
+       THEN cpc[P] = "cret" /\ (Ev.x.ok <=> cres[P] = "cancelled") /\ ChanRet(P) /\ UNCHANGED drv
        ELSE IF Ev.fn = "close"       \* what the real code answered is what the model computed
        THEN /\ cpc[P] = "cret" /\ cres[P] = "closed"
             /\ Ev.x.v = cx[P].left /\ Ev.x.running = cx[P].run /\ (Ev.x.open <=> cx[P].open)
@@ -81,6 +93,11 @@ RingOp ==
   \/ IsOp("try_unleak_slot_internal", "enqueuer_tail", "cas") /\ Ev.ok /\ WV(Ev.b) = reg[P].slot /\ pc[P] = "E3" /\ etail = Add(reg[P].slot, 1)
   \/ IsOp("try_unleak_slot_internal", "enqueuer_tail", "cas") /\ ~Ev.ok /\ WV(Ev.r) = etail /\ pc[P] = "E3" /\ etail # Add(reg[P].slot, 1)
   \/ IsOp("try_publish_leaked_internal", "tail", "cas") /\ Ev.ok /\ WV(Ev.a) = reg[P].slot /\ pc[P] = "E5" /\ tail = reg[P].slot
+  \/ IsOp("try_publish_leaked_internal_index", "tail", "cas") /\ Ev.ok /\ WV(Ev.a) = reg[P].slot /\ pc[P] = "P1" /\ tail = reg[P].slot
+  \/ IsOp("try_publish_leaked_internal_index", "tail", "cas") /\ ~Ev.ok /\ WV(Ev.r) = tail /\ WV(Ev.a) = reg[P].slot /\ pc[P] = "P1" /\ tail # reg[P].slot
+  \/ IsOp("try_publish_leaked_internal_index", "head", "ld") /\ WV(Ev.r) = head /\ pc[P] = "P2"
+  \/ IsOp("try_unleak_slot_index_internal", "enqueuer_tail", "cas") /\ Ev.ok /\ WV(Ev.b) = reg[P].slot /\ pc[P] = "U1" /\ etail = Add(reg[P].slot, 1)
+  \/ IsOp("try_unleak_slot_index_internal", "enqueuer_tail", "cas") /\ ~Ev.ok /\ WV(Ev.r) = etail /\ WV(Ev.b) = reg[P].slot /\ pc[P] = "U1" /\ etail # Add(reg[P].slot, 1)
   \/ IsOp("consume_leaking_internal", "dequeuer_head", "fa") /\ WV(Ev.r) = dhead /\ pc[P] = "D1"
   \/ IsOp("consume_leaking_internal", "tail", "ld") /\ WV(Ev.r) = tail /\ pc[P] = "D2"
   \/ IsOp("consume_leaking_internal", "dequeuer_head", "cas") /\ Ev.ok /\ WV(Ev.b) = reg[P].slot /\ pc[P] = "D3" /\ dhead = Add(reg[P].slot, 1)
